@@ -324,6 +324,9 @@ func (x *Exec) stmt(fr *Frame, s ast.Stmt, st *State) []*State {
 			r = Sub(cur.S, IntLit(1))
 		}
 		c.oblige("overflow", exprText(s.X)+s.Tok.String(), inRange(r, T), s.Pos())
+		if _, _, ok := intRange(T); ok {
+			r = Ite(inRange(r, T), r, wrapTo(r, T))
+		}
 		x.assign(c, s.X, Scalar(r, T))
 		return one(st)
 	case *ast.ReturnStmt:
